@@ -259,4 +259,525 @@ theorem distance_row (σ : Net ℝ) (ob : NObs ℝ) (u : Unk) (fuel : Nat) (out 
   cases c <;> simp only [NObs.name, Unk.mk.injEq, reduceCtorEq, and_false, and_true, if_false, VX, VY, ind, MM] <;>
     by_cases h1 : ob.pfrom = id <;> by_cases h2 : ob.pto = id <;> simp [h1, h2] <;> field_simp <;> ring
 
+theorem direction_row (σ : Net ℝ) (ob : NObs ℝ) (u : Unk) (fuel : Nat) (out : LinOut ℝ) (hf : σ.isFree u = true)
+    (h : ¬ hdist (σ.view ob) < CUT) (hok : Gen.Lin.direction fuel (σ.view ob) = .ok out) :
+    NetPartialBearing (fun o => o.orientation) σ ob u (symEntry ob.name out.pushes u) := by
+  have hd := (hdist_pos_of_not_cut h).ne'
+  have hpi : π ≠ 0 := Real.pi_ne_zero
+  have he := (direction_ok fuel _ out h hok).2
+  obtain ⟨θ, h0, hp, hder⟩ := bearing_gen (fun t => (σ.bumpU u t).view ob) (σ.view ob) _ _ (dX_net σ ob u) (dY_net σ ob u) hd
+    (fun o => o.orientation) _ (ori_net σ ob u)
+  refine ⟨θ, h0, hp, hder.congr_deriv ?_⟩
+  unfold LinOut.pushes; rw [he]; unfold directionEvs
+  simp only [pushes_append, pushes_ite, pushes_push, pushes_touch, pushes_nil, symEntry_append, symEntry_cons, symEntry_nil]
+  rw [symEntry_block2 _ _ _ _ _ _ _ _ (isFree_xy (c := .x) hf), symEntry_block2 _ _ _ _ _ _ _ _ (isFree_xy (c := .x) hf)]
+  obtain ⟨id, c⟩ := u
+  cases c <;> simp only [NObs.name, Unk.mk.injEq, reduceCtorEq, and_false, and_true, if_false, VX, VY, VO, ind, KF, R2CC] <;>
+    by_cases h1 : ob.pfrom = id <;> by_cases h2 : ob.pto = id <;> by_cases h3 : ob.sp = id <;>
+    simp [h1, h2, h3] <;> field_simp <;> ring
+
+theorem azimuth_row (σ : Net ℝ) (ob : NObs ℝ) (u : Unk) (fuel : Nat) (out : LinOut ℝ) (hf : σ.isFree u = true)
+    (h : ¬ hdist (σ.view ob) < CUT) (hok : Gen.Lin.azimuth fuel (σ.view ob) = .ok out) :
+    NetPartialBearing (fun o => o.xNorth) σ ob u (symEntry ob.name out.pushes u) := by
+  have hd := (hdist_pos_of_not_cut h).ne'
+  have hpi : π ≠ 0 := Real.pi_ne_zero
+  have he := (azimuth_ok fuel _ out h hok).2
+  obtain ⟨θ, h0, hp, hder⟩ := bearing_gen (fun t => (σ.bumpU u t).view ob) (σ.view ob) _ _ (dX_net σ ob u) (dY_net σ ob u) hd
+    (fun o => o.xNorth) 0 (by intro t; simp [xNorth_net])
+  refine ⟨θ, h0, hp, hder.congr_deriv ?_⟩
+  unfold LinOut.pushes; rw [he]; unfold azimuthEvs
+  simp only [pushes_append, pushes_ite, pushes_push, pushes_touch, pushes_nil, symEntry_append, symEntry_cons, symEntry_nil]
+  rw [symEntry_block2 _ _ _ _ _ _ _ _ (isFree_xy (c := .x) hf), symEntry_block2 _ _ _ _ _ _ _ _ (isFree_xy (c := .x) hf)]
+  obtain ⟨id, c⟩ := u
+  cases c <;> simp only [NObs.name, Unk.mk.injEq, reduceCtorEq, and_false, and_true, if_false, VX, VY, ind, KF, R2CC] <;>
+    by_cases h1 : ob.pfrom = id <;> by_cases h2 : ob.pto = id <;>
+    simp [h1, h2] <;> field_simp <;> ring
+
+theorem angle_row (σ : Net ℝ) (ob : NObs ℝ) (u : Unk) (fuel : Nat) (out : LinOut ℝ) (hf : σ.isFree u = true)
+    (h : ¬ hdist (σ.view ob) < CUT) (h' : ¬ hdist2 (σ.view ob) < CUT) (hok : Gen.Lin.angle fuel (σ.view ob) = .ok out) :
+    NetPartialAngle σ ob u (symEntry ob.name out.pushes u) := by
+  have hd := (hdist_pos_of_not_cut h).ne'
+  have hd2 := (hdist2_pos_of_not_cut h').ne'
+  have hpi : π ≠ 0 := Real.pi_ne_zero
+  have he := (angle_ok fuel _ out h h' hok).2
+  obtain ⟨θ₁, θ₂, a0, b0, ap, bp, hder⟩ := angle_gen (fun t => (σ.bumpU u t).view ob) (σ.view ob) _ _ _ _
+    (dX_net σ ob u) (dY_net σ ob u) (dX2_net σ ob u) (dY2_net σ ob u) hd hd2
+  refine ⟨θ₁, θ₂, a0, b0, ap, bp, hder.congr_deriv ?_⟩
+  unfold LinOut.pushes; rw [he]; unfold angleEvs
+  simp only [pushes_append, pushes_ite, pushes_push, pushes_touch, pushes_nil, symEntry_append, symEntry_cons, symEntry_nil]
+  rw [symEntry_block2 _ _ _ _ _ _ _ _ (isFree_xy (c := .x) hf), symEntry_block2 _ _ _ _ _ _ _ _ (isFree_xy (c := .x) hf),
+    symEntry_block2 _ _ _ _ _ _ _ _ (isFree_xy (c := .x) hf)]
+  obtain ⟨id, c⟩ := u
+  cases c <;> simp only [NObs.name, Unk.mk.injEq, reduceCtorEq, and_false, and_true, if_false, VX, VY, VX2, VY2, ind, KF, R2CC] <;>
+    by_cases h1 : ob.pfrom = id <;> by_cases h2 : ob.pto = id <;> by_cases h3 : ob.pfs = id <;>
+    simp [h1, h2, h3] <;> field_simp <;> ring
+
+theorem s_distance_row (σ : Net ℝ) (ob : NObs ℝ) (u : Unk) (fuel : Nat) (out : LinOut ℝ) (hf : σ.isFree u = true)
+    (hok : Gen.Lin.s_distance fuel (σ.view ob) = .ok out) :
+    NetPartial MM sdist σ ob u (symEntry ob.name out.pushes u) := by
+  rw [s_distance_eq] at hok
+  split at hok
+  · exact absurd hok (by simp)
+  · rename_i hs
+    injection hok with hok; subst hok
+    refine (sdist_gen (fun t => (σ.bumpU u t).view ob) (σ.view ob) _ _ _ (dX_net σ ob u) (dY_net σ ob u) (dZ_net σ ob u) hs).congr_deriv ?_
+    unfold LinOut.pushes sdistEvs
+    simp only [pushes_append, pushes_ite, pushes_push, pushes_touch, pushes_nil, symEntry_append]
+    rw [symEntry_block2 _ _ _ _ _ _ _ _ (isFree_xy (c := .x) hf), symEntry_block2 _ _ _ _ _ _ _ _ (isFree_xy (c := .x) hf),
+      symEntry_block1 _ _ _ _ _ _ (isFree_z hf), symEntry_block1 _ _ _ _ _ _ (isFree_z hf)]
+    obtain ⟨id, c⟩ := u
+    cases c <;> simp only [NObs.name, Unk.mk.injEq, reduceCtorEq, and_false, and_true, if_false, VX, VY, VZ, ind, MM] <;>
+      by_cases h1 : ob.pfrom = id <;> by_cases h2 : ob.pto = id <;> simp [h1, h2] <;> field_simp <;> ring
+
+theorem z_angle_row (σ : Net ℝ) (ob : NObs ℝ) (u : Unk) (fuel : Nat) (out : LinOut ℝ) (hf : σ.isFree u = true)
+    (hok : Gen.Lin.z_angle fuel (σ.view ob) = .ok out) :
+    NetPartial R2CC zenithComputed σ ob u (symEntry ob.name out.pushes u) := by
+  rw [z_angle_eq] at hok
+  split at hok
+  · exact absurd hok (by simp)
+  · rename_i hs
+    push Not at hs
+    injection hok with hok; subst hok
+    have hpi : π ≠ 0 := Real.pi_ne_zero
+    have hss := sdist_sq_eq (σ.view ob)
+    have hsd := hs.2
+    have hhd := hs.1
+    have hz := zenith_gen (fun t => (σ.bumpU u t).view ob) (σ.view ob) _ _ _ (dX_net σ ob u) (dY_net σ ob u) (dZ_net σ ob u) hs.1
+    refine (zenithComputed_gen (fun t => (σ.bumpU u t).view ob) (σ.view ob) _ (value_net σ ob u) hz).congr_deriv ?_
+    unfold LinOut.pushes zangleEvs
+    simp only [pushes_append, pushes_ite, pushes_push, pushes_touch, pushes_nil, symEntry_append]
+    rw [symEntry_block2 _ _ _ _ _ _ _ _ (isFree_xy (c := .x) hf), symEntry_block2 _ _ _ _ _ _ _ _ (isFree_xy (c := .x) hf),
+      symEntry_block1 _ _ _ _ _ _ (isFree_z hf), symEntry_block1 _ _ _ _ _ _ (isFree_z hf)]
+    obtain ⟨id, c⟩ := u
+    cases c <;> simp only [NObs.name, Unk.mk.injEq, reduceCtorEq, and_false, and_true, if_false, VX, VY, VZ, ind, KZ, R2CC] <;>
+      by_cases h1 : ob.pfrom = id <;> by_cases h2 : ob.pto = id <;> simp [h1, h2] <;> (try field_simp) <;>
+      first
+      | ring1
+      | (left; trivial)
+      | (left; linear_combination (2000000 : ℝ) * hss)
+      | linear_combination (-(2000000 : ℝ) * zsign (σ.view ob)) * hss
+      | linear_combination ((2000000 : ℝ) * zsign (σ.view ob)) * hss
+      | (left; ring1)
+      | nlinarith [hss]
+
+theorem h_diff_row (σ : Net ℝ) (ob : NObs ℝ) (u : Unk) (fuel : Nat) (out : LinOut ℝ) (hf : σ.isFree u = true)
+    (hok : Gen.Lin.h_diff fuel (σ.view ob) = .ok out) :
+    NetPartial MM dZ σ ob u (symEntry ob.name out.pushes u) := by
+  rw [h_diff_eq fuel] at hok; injection hok with hok; subst hok
+  refine (affine_gen dZ (fun t => (σ.bumpU u t).view ob) (σ.view ob) _ (dZ_net σ ob u)).congr_deriv ?_
+  simp only [LinOut.pushes, pushes_append, pushes_ite, pushes_push, pushes_touch, pushes_nil, symEntry_append]
+  rw [symEntry_block1 _ _ _ _ _ _ (isFree_z hf), symEntry_block1 _ _ _ _ _ _ (isFree_z hf)]
+  obtain ⟨id, c⟩ := u
+  cases c <;> simp only [NObs.name, Unk.mk.injEq, reduceCtorEq, and_false, and_true, if_false, VZ, ind, MM] <;>
+    by_cases h1 : ob.pfrom = id <;> by_cases h2 : ob.pto = id <;> simp [h1, h2] <;> ring
+
+theorem zdiff_row (σ : Net ℝ) (ob : NObs ℝ) (u : Unk) (fuel : Nat) (out : LinOut ℝ) (hf : σ.isFree u = true)
+    (hok : Gen.Lin.zdiff fuel (σ.view ob) = .ok out) :
+    NetPartial MM dZ σ ob u (symEntry ob.name out.pushes u) := by
+  rw [zdiff_eq fuel] at hok; injection hok with hok; subst hok
+  refine (affine_gen dZ (fun t => (σ.bumpU u t).view ob) (σ.view ob) _ (dZ_net σ ob u)).congr_deriv ?_
+  simp only [LinOut.pushes, pushes_append, pushes_ite, pushes_push, pushes_touch, pushes_nil, symEntry_append]
+  rw [symEntry_block1 _ _ _ _ _ _ (isFree_z hf), symEntry_block1 _ _ _ _ _ _ (isFree_z hf)]
+  obtain ⟨id, c⟩ := u
+  cases c <;> simp only [NObs.name, Unk.mk.injEq, reduceCtorEq, and_false, and_true, if_false, VZ, ind, MM] <;>
+    by_cases h1 : ob.pfrom = id <;> by_cases h2 : ob.pto = id <;> simp [h1, h2] <;> ring
+
+theorem xdiff_row (σ : Net ℝ) (ob : NObs ℝ) (u : Unk) (fuel : Nat) (out : LinOut ℝ) (hf : σ.isFree u = true)
+    (hok : Gen.Lin.xdiff fuel (σ.view ob) = .ok out) :
+    NetPartial MM dX σ ob u (symEntry ob.name out.pushes u) := by
+  rw [xdiff_eq fuel] at hok; injection hok with hok; subst hok
+  refine (affine_gen dX (fun t => (σ.bumpU u t).view ob) (σ.view ob) _ (dX_net σ ob u)).congr_deriv ?_
+  simp only [LinOut.pushes, pushes_append, pushes_ite, pushes_push, pushes_touch, pushes_nil, symEntry_append]
+  rw [symEntry_block1 _ _ _ _ _ _ (isFree_x1 hf), symEntry_block1 _ _ _ _ _ _ (isFree_x1 hf)]
+  obtain ⟨id, c⟩ := u
+  cases c <;> simp only [NObs.name, Unk.mk.injEq, reduceCtorEq, and_false, and_true, if_false, VX, ind, MM] <;>
+    by_cases h1 : ob.pfrom = id <;> by_cases h2 : ob.pto = id <;> simp [h1, h2] <;> ring
+
+theorem ydiff_row (σ : Net ℝ) (ob : NObs ℝ) (u : Unk) (fuel : Nat) (out : LinOut ℝ) (hf : σ.isFree u = true)
+    (hok : Gen.Lin.ydiff fuel (σ.view ob) = .ok out) :
+    NetPartial MM dY σ ob u (symEntry ob.name out.pushes u) := by
+  rw [ydiff_eq fuel] at hok; injection hok with hok; subst hok
+  refine (affine_gen dY (fun t => (σ.bumpU u t).view ob) (σ.view ob) _ (dY_net σ ob u)).congr_deriv ?_
+  simp only [LinOut.pushes, pushes_append, pushes_ite, pushes_push, pushes_touch, pushes_nil, symEntry_append]
+  rw [symEntry_block1 _ _ _ _ _ _ (isFree_y1 hf), symEntry_block1 _ _ _ _ _ _ (isFree_y1 hf)]
+  obtain ⟨id, c⟩ := u
+  cases c <;> simp only [NObs.name, Unk.mk.injEq, reduceCtorEq, and_false, and_true, if_false, VY, ind, MM] <;>
+    by_cases h1 : ob.pfrom = id <;> by_cases h2 : ob.pto = id <;> simp [h1, h2] <;> ring
+
+theorem x_row (σ : Net ℝ) (ob : NObs ℝ) (u : Unk) (fuel : Nat) (out : LinOut ℝ) (hf : σ.isFree u = true)
+    (hok : Gen.Lin.x fuel (σ.view ob) = .ok out) :
+    NetPartial MM fromX σ ob u (symEntry ob.name out.pushes u) := by
+  rw [x_eq fuel] at hok; injection hok with hok; subst hok
+  refine (affine_gen fromX (fun t => (σ.bumpU u t).view ob) (σ.view ob) _ (fromX_net σ ob u)).congr_deriv ?_
+  simp only [LinOut.pushes, pushes_append, pushes_ite, pushes_push, pushes_touch, pushes_nil, symEntry_append]
+  rw [symEntry_block1 _ _ _ _ _ _ (isFree_x1 hf)]
+  obtain ⟨id, c⟩ := u
+  cases c <;> simp only [NObs.name, Unk.mk.injEq, reduceCtorEq, and_false, and_true, if_false, VFX, ind, MM] <;>
+    by_cases h1 : ob.pfrom = id <;> simp [h1]
+
+theorem y_row (σ : Net ℝ) (ob : NObs ℝ) (u : Unk) (fuel : Nat) (out : LinOut ℝ) (hf : σ.isFree u = true)
+    (hok : Gen.Lin.y fuel (σ.view ob) = .ok out) :
+    NetPartial MM fromY σ ob u (symEntry ob.name out.pushes u) := by
+  rw [y_eq fuel] at hok; injection hok with hok; subst hok
+  refine (affine_gen fromY (fun t => (σ.bumpU u t).view ob) (σ.view ob) _ (fromY_net σ ob u)).congr_deriv ?_
+  simp only [LinOut.pushes, pushes_append, pushes_ite, pushes_push, pushes_touch, pushes_nil, symEntry_append]
+  rw [symEntry_block1 _ _ _ _ _ _ (isFree_y1 hf)]
+  obtain ⟨id, c⟩ := u
+  cases c <;> simp only [NObs.name, Unk.mk.injEq, reduceCtorEq, and_false, and_true, if_false, VFY, ind, MM] <;>
+    by_cases h1 : ob.pfrom = id <;> simp [h1]
+
+theorem z_row (σ : Net ℝ) (ob : NObs ℝ) (u : Unk) (fuel : Nat) (out : LinOut ℝ) (hf : σ.isFree u = true)
+    (hok : Gen.Lin.z fuel (σ.view ob) = .ok out) :
+    NetPartial MM fromZ σ ob u (symEntry ob.name out.pushes u) := by
+  rw [z_eq fuel] at hok; injection hok with hok; subst hok
+  refine (affine_gen fromZ (fun t => (σ.bumpU u t).view ob) (σ.view ob) _ (fromZ_net σ ob u)).congr_deriv ?_
+  simp only [LinOut.pushes, pushes_append, pushes_ite, pushes_push, pushes_touch, pushes_nil, symEntry_append]
+  rw [symEntry_block1 _ _ _ _ _ _ (isFree_z hf)]
+  obtain ⟨id, c⟩ := u
+  cases c <;> simp only [NObs.name, Unk.mk.injEq, reduceCtorEq, and_false, and_true, if_false, VFZ, ind, MM] <;>
+    by_cases h1 : ob.pfrom = id <;> simp [h1]
+
+/-! ### the shape of the event lists: which unknowns are referred to -/
+
+/-- the (role, coordinate) pairs the member function of a class refers to, in push order -/
+def Kind.roles : Kind → List (Role × Coord)
+  | .direction => [(.station, .ori), (.pfrom, .y), (.pfrom, .x), (.pto, .y), (.pto, .x)]
+  | .distance | .azimuth => [(.pfrom, .y), (.pfrom, .x), (.pto, .y), (.pto, .x)]
+  | .angle => [(.pfrom, .y), (.pfrom, .x), (.pto, .y), (.pto, .x), (.pfs, .y), (.pfs, .x)]
+  | .s_distance | .z_angle => [(.pfrom, .y), (.pfrom, .x), (.pfrom, .z), (.pto, .y), (.pto, .x), (.pto, .z)]
+  | .h_diff | .zdiff => [(.pfrom, .z), (.pto, .z)]
+  | .xdiff => [(.pfrom, .x), (.pto, .x)]
+  | .ydiff => [(.pfrom, .y), (.pto, .y)]
+  | .x => [(.pfrom, .x)]
+  | .y => [(.pfrom, .y)]
+  | .z => [(.pfrom, .z)]
+
+def evRC {K : Type} : Ev K → Role × Coord
+  | .touch r c => (r, c)
+  | .push r c _ => (r, c)
+
+/-- what is used of the shape of an event list: pushes follow touches, the unknowns touched are
+    exactly the adjusted ones among the roles of the class, nothing else is mentioned -/
+structure EvShape (k : Kind) (o : Obs ℝ) (evs : List (Ev ℝ)) : Prop where
+  wt : wellTouched evs [] = true
+  touched : ∀ rc, rc ∈ touches evs ↔ (rc ∈ k.roles ∧ freeAt o rc = true)
+  free : ∀ e ∈ evs, freeAt o (evRC e) = true
+
+theorem mem_ite_list {α : Type} (b : Bool) (l : List α) (x : α) :
+    x ∈ (if b = true then l else []) ↔ (b = true ∧ x ∈ l) := by
+  cases b <;> simp
+
+theorem forall_mem_ite_list {α : Type} (b : Bool) (l : List α) (P : α → Prop) :
+    (∀ x ∈ (if b = true then l else []), P x) ↔ (b = true → ∀ x ∈ l, P x) := by
+  cases b <;> simp
+
+theorem shape_2xy (k : Kind) (o : Obs ℝ) (hk : k.roles = [(.pfrom, .y), (.pfrom, .x), (.pto, .y), (.pto, .x)]) (a1 a2 b1 b2 : ℝ) :
+    EvShape k o ((if o.pfrom.free_xy then [Ev.touch .pfrom .x, Ev.touch .pfrom .y, Ev.push .pfrom .y a1, Ev.push .pfrom .x a2] else []) ++
+      (if o.pto.free_xy then [Ev.touch .pto .x, Ev.touch .pto .y, Ev.push .pto .y b1, Ev.push .pto .x b2] else [])) := by
+  refine ⟨?_, ?_, ?_⟩
+  · cases o.pfrom.free_xy <;> cases o.pto.free_xy <;> simp [wellTouched]
+  · rintro ⟨r, c⟩
+    rw [hk]
+    simp only [touches_append, touches_ite, touches_touch, touches_push, touches_nil, List.mem_append, mem_ite_list]
+    cases r <;> cases c <;> simp [freeAt, Obs.pt]
+  · simp only [List.forall_mem_append, forall_mem_ite_list, List.forall_mem_cons]
+    simp [evRC, freeAt, Obs.pt]
+
+theorem shape_dir (o : Obs ℝ) (c0 a1 a2 b1 b2 : ℝ) :
+    EvShape .direction o ([Ev.touch .station .ori] ++ [Ev.push .station .ori c0] ++
+      (if o.pfrom.free_xy then [Ev.touch .pfrom .x, Ev.touch .pfrom .y, Ev.push .pfrom .y a1, Ev.push .pfrom .x a2] else []) ++
+      (if o.pto.free_xy then [Ev.touch .pto .x, Ev.touch .pto .y, Ev.push .pto .y b1, Ev.push .pto .x b2] else [])) := by
+  refine ⟨?_, ?_, ?_⟩
+  · cases o.pfrom.free_xy <;> cases o.pto.free_xy <;> simp [wellTouched]
+  · rintro ⟨r, c⟩
+    simp only [touches_append, touches_ite, touches_touch, touches_push, touches_nil, List.mem_append, mem_ite_list]
+    cases r <;> cases c <;> simp [Kind.roles, freeAt, Obs.pt]
+  · simp only [List.forall_mem_append, forall_mem_ite_list, List.forall_mem_cons]
+    simp [evRC, freeAt, Obs.pt]
+
+theorem shape_3xy (o : Obs ℝ) (a1 a2 b1 b2 c1 c2 : ℝ) :
+    EvShape .angle o ((if o.pfrom.free_xy then [Ev.touch .pfrom .x, Ev.touch .pfrom .y, Ev.push .pfrom .y a1, Ev.push .pfrom .x a2] else []) ++
+      (if o.pto.free_xy then [Ev.touch .pto .x, Ev.touch .pto .y, Ev.push .pto .y b1, Ev.push .pto .x b2] else []) ++
+      (if o.pfs.free_xy then [Ev.touch .pfs .x, Ev.touch .pfs .y, Ev.push .pfs .y c1, Ev.push .pfs .x c2] else [])) := by
+  refine ⟨?_, ?_, ?_⟩
+  · cases o.pfrom.free_xy <;> cases o.pto.free_xy <;> cases o.pfs.free_xy <;> simp [wellTouched]
+  · rintro ⟨r, c⟩
+    simp only [touches_append, touches_ite, touches_touch, touches_push, touches_nil, List.mem_append, mem_ite_list]
+    cases r <;> cases c <;> simp [Kind.roles, freeAt, Obs.pt]
+  · simp only [List.forall_mem_append, forall_mem_ite_list, List.forall_mem_cons]
+    simp [evRC, freeAt, Obs.pt]
+
+theorem shape_xyz2 (k : Kind) (o : Obs ℝ)
+    (hk : k.roles = [(.pfrom, .y), (.pfrom, .x), (.pfrom, .z), (.pto, .y), (.pto, .x), (.pto, .z)]) (a1 a2 a3 b1 b2 b3 : ℝ) :
+    EvShape k o ((if o.pfrom.free_xy then [Ev.touch .pfrom .x, Ev.touch .pfrom .y, Ev.push .pfrom .y a1, Ev.push .pfrom .x a2] else []) ++
+      (if o.pfrom.free_z then [Ev.touch .pfrom .z, Ev.push .pfrom .z a3] else []) ++
+      (if o.pto.free_xy then [Ev.touch .pto .x, Ev.touch .pto .y, Ev.push .pto .y b1, Ev.push .pto .x b2] else []) ++
+      (if o.pto.free_z then [Ev.touch .pto .z, Ev.push .pto .z b3] else [])) := by
+  refine ⟨?_, ?_, ?_⟩
+  · cases o.pfrom.free_xy <;> cases o.pto.free_xy <;> cases o.pfrom.free_z <;> cases o.pto.free_z <;> simp [wellTouched]
+  · rintro ⟨r, c⟩
+    rw [hk]
+    simp only [touches_append, touches_ite, touches_touch, touches_push, touches_nil, List.mem_append, mem_ite_list]
+    cases r <;> cases c <;> simp [freeAt, Obs.pt]
+  · simp only [List.forall_mem_append, forall_mem_ite_list, List.forall_mem_cons]
+    simp [evRC, freeAt, Obs.pt]
+
+theorem shape_two (k : Kind) (o : Obs ℝ) (c : Coord) (hc : c ≠ .ori) (hk : k.roles = [(.pfrom, c), (.pto, c)]) (a b : ℝ) :
+    EvShape k o ((if freeAt o (.pfrom, c) then [Ev.touch .pfrom c, Ev.push .pfrom c a] else []) ++
+      (if freeAt o (.pto, c) then [Ev.touch .pto c, Ev.push .pto c b] else [])) := by
+  refine ⟨?_, ?_, ?_⟩
+  · cases freeAt o (.pfrom, c) <;> cases freeAt o (.pto, c) <;> simp [wellTouched]
+  · rintro ⟨r, c'⟩
+    rw [hk]
+    simp only [touches_append, touches_ite, touches_touch, touches_push, touches_nil, List.mem_append, mem_ite_list]
+    simp only [List.mem_cons, List.not_mem_nil, or_false, Prod.mk.injEq]
+    constructor
+    · rintro (⟨h, rfl, rfl⟩ | ⟨h, rfl, rfl⟩)
+      · exact ⟨Or.inl ⟨rfl, rfl⟩, h⟩
+      · exact ⟨Or.inr ⟨rfl, rfl⟩, h⟩
+    · rintro ⟨(⟨rfl, rfl⟩ | ⟨rfl, rfl⟩), h⟩
+      · exact Or.inl ⟨h, rfl, rfl⟩
+      · exact Or.inr ⟨h, rfl, rfl⟩
+  · simp only [List.forall_mem_append, forall_mem_ite_list, List.forall_mem_cons]
+    simp [evRC]
+
+theorem shape_one (k : Kind) (o : Obs ℝ) (c : Coord) (hk : k.roles = [(.pfrom, c)]) (a : ℝ) :
+    EvShape k o (if freeAt o (.pfrom, c) then [Ev.touch .pfrom c, Ev.push .pfrom c a] else []) := by
+  refine ⟨?_, ?_, ?_⟩
+  · cases freeAt o (.pfrom, c) <;> simp [wellTouched]
+  · rintro ⟨r, c'⟩
+    rw [hk]
+    simp only [touches_ite, touches_touch, touches_push, touches_nil, mem_ite_list]
+    simp only [List.mem_cons, List.not_mem_nil, or_false, Prod.mk.injEq]
+    constructor
+    · rintro ⟨h, rfl, rfl⟩; exact ⟨⟨rfl, rfl⟩, h⟩
+    · rintro ⟨⟨rfl, rfl⟩, h⟩; exact ⟨h, rfl, rfl⟩
+  · simp only [forall_mem_ite_list, List.forall_mem_cons]
+    simp [evRC]
+
+theorem shape_of_regular (k : Kind) (fuel : Nat) (o : Obs ℝ) (out : LinOut ℝ) (hreg : Regular k o)
+    (hok : k.lin fuel o = .ok out) : EvShape k o out.evs := by
+  cases k
+  case direction =>
+    rw [(direction_ok fuel o out hreg hok).2]; exact shape_dir o _ _ _ _ _
+  case distance =>
+    have hok' : Gen.Lin.distance fuel o = .ok out := hok
+    rw [distance_eq fuel o hreg] at hok'; injection hok' with hok'; subst hok'
+    exact shape_2xy _ o rfl _ _ _ _
+  case azimuth =>
+    rw [(azimuth_ok fuel o out hreg hok).2]; exact shape_2xy _ o rfl _ _ _ _
+  case angle =>
+    rw [(angle_ok fuel o out hreg.1 hreg.2 hok).2]; exact shape_3xy o _ _ _ _ _ _
+  case s_distance =>
+    have hok' : Gen.Lin.s_distance fuel o = .ok out := hok
+    rw [s_distance_eq] at hok'
+    split at hok'
+    · exact absurd hok' (by simp)
+    · injection hok' with hok'; subst hok'; exact shape_xyz2 _ o rfl _ _ _ _ _ _
+  case z_angle =>
+    have hok' : Gen.Lin.z_angle fuel o = .ok out := hok
+    rw [z_angle_eq] at hok'
+    split at hok'
+    · exact absurd hok' (by simp)
+    · injection hok' with hok'; subst hok'; exact shape_xyz2 _ o rfl _ _ _ _ _ _
+  case h_diff =>
+    have hok' : Gen.Lin.h_diff fuel o = .ok out := hok
+    rw [h_diff_eq fuel o] at hok'; injection hok' with hok'; subst hok'
+    exact shape_two _ o .z (by decide) rfl _ _
+  case zdiff =>
+    have hok' : Gen.Lin.zdiff fuel o = .ok out := hok
+    rw [zdiff_eq fuel o] at hok'; injection hok' with hok'; subst hok'
+    exact shape_two _ o .z (by decide) rfl _ _
+  case xdiff =>
+    have hok' : Gen.Lin.xdiff fuel o = .ok out := hok
+    rw [xdiff_eq fuel o] at hok'; injection hok' with hok'; subst hok'
+    exact shape_two _ o .x (by decide) rfl _ _
+  case ydiff =>
+    have hok' : Gen.Lin.ydiff fuel o = .ok out := hok
+    rw [ydiff_eq fuel o] at hok'; injection hok' with hok'; subst hok'
+    exact shape_two _ o .y (by decide) rfl _ _
+  case x =>
+    have hok' : Gen.Lin.x fuel o = .ok out := hok
+    rw [x_eq fuel o] at hok'; injection hok' with hok'; subst hok'
+    exact shape_one _ o .x rfl _
+  case y =>
+    have hok' : Gen.Lin.y fuel o = .ok out := hok
+    rw [y_eq fuel o] at hok'; injection hok' with hok'; subst hok'
+    exact shape_one _ o .y rfl _
+  case z =>
+    have hok' : Gen.Lin.z fuel o = .ok out := hok
+    rw [z_eq fuel o] at hok'; injection hok' with hok'; subst hok'
+    exact shape_one _ o .z rfl _
+
+/-- every class: the sum of the pushes for the roles naming `u` is the derivative of the row wrt `u` -/
+theorem row_deriv (k : Kind) (σ : Net ℝ) (ob : NObs ℝ) (u : Unk) (fuel : Nat) (out : LinOut ℝ)
+    (hf : σ.isFree u = true) (hreg : Regular k (σ.view ob)) (hok : k.lin fuel (σ.view ob) = .ok out) :
+    RowDeriv k σ ob u (symEntry ob.name out.pushes u) := by
+  cases k
+  case direction => exact direction_row σ ob u fuel out hf hreg hok
+  case distance => exact distance_row σ ob u fuel out hf hreg hok
+  case angle => exact angle_row σ ob u fuel out hf hreg.1 hreg.2 hok
+  case h_diff => exact h_diff_row σ ob u fuel out hf hok
+  case s_distance => exact s_distance_row σ ob u fuel out hf hok
+  case z_angle => exact z_angle_row σ ob u fuel out hf hok
+  case x => exact x_row σ ob u fuel out hf hok
+  case y => exact y_row σ ob u fuel out hf hok
+  case z => exact z_row σ ob u fuel out hf hok
+  case xdiff => exact xdiff_row σ ob u fuel out hf hok
+  case ydiff => exact ydiff_row σ ob u fuel out hf hok
+  case zdiff => exact zdiff_row σ ob u fuel out hf hok
+  case azimuth => exact azimuth_row σ ob u fuel out hf hreg hok
+
+theorem symEntry_eq_zero (name : Role → Coord → Unk) (l : List (Role × Coord × ℝ)) (u : Unk)
+    (h : ∀ p ∈ l, name p.1 p.2.1 ≠ u) : symEntry name l u = 0 := by
+  induction l with
+  | nil => rfl
+  | cons p t ih =>
+    obtain ⟨r, c, v⟩ := p
+    have h1 : ¬ name r c = u := h (r, c, v) (List.mem_cons_self ..)
+    simp [h1, ih (fun q hq => h q (List.mem_cons_of_mem _ hq))]
+
+/-- **the assembled matrix is the Jacobian**: for every row whose own exclusion does not apply,
+    the entry in the column of any adjusted unknown `u` — the sum of what the row pushed onto that
+    column, whichever roles name `u` — is the derivative of the row's observation function wrt `u`;
+    the entry in the column of an unknown no role of the row names is 0 -/
+theorem design_matrix_is_jacobian (σ : Net ℝ) (fuel : Nat) (obs : List (NObs ℝ)) (s0 : IdxState) (hs0 : s0.WF)
+    (res : PassOut ℝ) (hp : passFrom σ fuel obs s0 = .ok res) (r : Nat) (ob : NObs ℝ) (hr : obs[r]? = some ob)
+    (hreg : Regular ob.kind (σ.view ob)) :
+    (∀ u, σ.isFree u = true → RowDeriv ob.kind σ ob u (codeMatrix res.rows r (res.idx.get u))) ∧
+    (∀ u, (∀ rc ∈ ob.kind.roles, ob.name rc.1 rc.2 ≠ u) → codeMatrix res.rows r (res.idx.get u) = 0) := by
+  obtain ⟨out, ho, _, hsym⟩ := passFrom_rows σ fuel obs s0 res hs0 hp r ob hr
+  have hsh := shape_of_regular ob.kind fuel _ out hreg ho
+  have hsym := hsym hsh.wt
+  refine ⟨fun u hf => ?_, fun u hu => ?_⟩
+  · rw [hsym u]; exact row_deriv ob.kind σ ob u fuel out hf hreg ho
+  · rw [hsym u]
+    apply symEntry_eq_zero
+    intro p hp' hn
+    -- a push is preceded by a touch of the same (role, coordinate), which is one of the roles of the class
+    have hmem : (p.1, p.2.1) ∈ touches out.evs := by
+      have : ∀ (evs : List (Ev ℝ)) (seen : List (Role × Coord)), wellTouched evs seen = true →
+          ∀ q ∈ pushes evs, (q.1, q.2.1) ∈ seen ∨ (q.1, q.2.1) ∈ touches evs := by
+        intro evs
+        induction evs with
+        | nil => intro seen _ q hq; simp at hq
+        | cons e t ih =>
+          intro seen hw q hq
+          cases e with
+          | touch r' c' =>
+            rcases ih ((r', c') :: seen) hw q (by simpa using hq) with h | h
+            · rcases List.mem_cons.mp h with h | h
+              · right; simp [h]
+              · left; exact h
+            · right; simp [h]
+          | push r' c' v' =>
+            have hw' : ((r', c') ∈ seen) ∧ wellTouched t seen = true := by simpa [wellTouched] using hw
+            rcases List.mem_cons.mp (by simpa using hq) with h | h
+            · left; subst h; exact hw'.1
+            · rcases ih seen hw'.2 q h with h | h
+              · left; exact h
+              · right; simpa using h
+      rcases this out.evs [] hsh.wt p hp' with h | h
+      · simp at h
+      · exact h
+    exact hu _ ((hsh.touched _).mp hmem).1 hn
+
+/-! ### number of columns = number of distinct adjusted unknowns the rows refer to -/
+
+/-- the adjusted unknowns a row refers to -/
+def involved (σ : Net ℝ) (ob : NObs ℝ) : List Unk :=
+  ((ob.kind.roles).filter (freeAt (σ.view ob))).map (fun rc => ob.name rc.1 rc.2)
+
+theorem passTouched_mem (σ : Net ℝ) (fuel : Nat) (obs : List (NObs ℝ)) :
+    ∀ (s : IdxState) (res : PassOut ℝ), passFrom σ fuel obs s = .ok res →
+      (∀ ob ∈ obs, Regular ob.kind (σ.view ob)) →
+      ∀ v, v ∈ passTouched σ fuel obs ↔ v ∈ obs.flatMap (involved σ) := by
+  induction obs with
+  | nil => intro s res _ _ v; simp [passTouched]
+  | cons ob t ih =>
+    intro s res hp hreg v
+    obtain ⟨out, r, ho, hr, rfl⟩ := passFrom_cons hp
+    have hsh := shape_of_regular ob.kind fuel _ out (hreg ob (List.mem_cons_self ..)) ho
+    have := ih _ r hr (fun ob' h' => hreg ob' (List.mem_cons_of_mem _ h')) v
+    simp only [passTouched, ho, List.mem_append, List.flatMap_cons, this, involved, List.mem_map, List.mem_filter]
+    constructor
+    · rintro (⟨rc, h1, rfl⟩ | h)
+      · exact Or.inl ⟨rc, (hsh.touched rc).mp h1, rfl⟩
+      · exact Or.inr h
+    · rintro (⟨rc, h1, rfl⟩ | h)
+      · exact Or.inl ⟨rc, (hsh.touched rc).mpr h1, rfl⟩
+      · exact Or.inr h
+
+theorem design_matrix_columns (σ : Net ℝ) (fuel : Nat) (obs : List (NObs ℝ)) (res : PassOut ℝ)
+    (hp : passFrom σ fuel obs IdxState.init = .ok res) (hreg : ∀ ob ∈ obs, Regular ob.kind (σ.view ob)) :
+    res.idx.maxn = (obs.flatMap (involved σ)).dedup.length := by
+  rw [passFrom_unknowns σ fuel obs res hp]
+  apply List.Perm.length_eq
+  apply (List.perm_ext_iff_of_nodup (List.nodup_dedup _) (List.nodup_dedup _)).mpr
+  intro v
+  simp only [List.mem_dedup]
+  exact passTouched_mem σ fuel obs _ res hp hreg v
+
+/-! ### the prologue of `project_equations` in front of the pass: history independence -/
+
+theorem passFrom_agree (C : Unk → Prop) (σ : Net ℝ) (fuel : Nat) (obs : List (NObs ℝ)) :
+    ∀ (s t : IdxState) (a : PassOut ℝ), AgreeOn C s t →
+      (∀ ob ∈ obs, ∀ out, ob.kind.lin fuel (σ.view ob) = .ok out → ∀ e ∈ out.evs, C (evTarget ob.name e)) →
+      passFrom σ fuel obs s = .ok a →
+      ∃ b, passFrom σ fuel obs t = .ok b ∧ a.rows = b.rows ∧ a.rhs = b.rhs ∧ AgreeOn C a.idx b.idx := by
+  induction obs with
+  | nil =>
+    intro s t a hag _ hp
+    simp only [passFrom] at hp; injection hp with hp; subst hp
+    exact ⟨⟨[], [], t⟩, rfl, rfl, rfl, hag⟩
+  | cons ob l ih =>
+    intro s t a hag hC hp
+    obtain ⟨out, r, ho, hr, rfl⟩ := passFrom_cons hp
+    obtain ⟨e1, e2⟩ := runEvs_agree ob.name C out.evs s t hag (hC ob (List.mem_cons_self ..) out ho)
+    obtain ⟨b, hb, r1, r2, r3⟩ := ih _ _ r e2 (fun ob' h' => hC ob' (List.mem_cons_of_mem _ h')) hr
+    refine ⟨⟨(runEvs ob.name out.evs t).2 :: b.rows, out.rhs :: b.rhs, b.idx⟩, ?_, ?_, ?_, r3⟩
+    · simp only [passFrom, ho, hb]
+    · simp [e1, r1]
+    · simp [r2]
+
+theorem evTarget_eq {K : Type} (name : Role → Coord → Unk) (e : Ev K) : evTarget name e = name (evRC e).1 (evRC e).2 := by
+  cases e <;> rfl
+
+/-- the real pass starts from whatever earlier passes left, after the prologue; it produces the
+    rows, right-hand sides, number of unknowns and the indexes of all adjusted unknowns of the pass
+    from the empty state — so everything proved for a well-formed start applies to it -/
+theorem pass_after_prologue (σ : Net ℝ) (fuel : Nat) (obs : List (NObs ℝ)) (s : IdxState) (a : PassOut ℝ)
+    (hreg : ∀ ob ∈ obs, Regular ob.kind (σ.view ob))
+    (hp : passFrom σ fuel obs (s.resetPass (fun i => Gen.Lin.resetGuard (σ.pt i))) = .ok a) :
+    ∃ b, passFrom σ fuel obs IdxState.init = .ok b ∧ a.rows = b.rows ∧ a.rhs = b.rhs ∧
+      a.idx.maxn = b.idx.maxn ∧ ∀ u, σ.isFree u = true → a.idx.get u = b.idx.get u := by
+  set g : Nat → Bool := fun i => Gen.Lin.resetGuard (σ.pt i) with hg
+  have hag : AgreeOn (fun u => u.c = .ori ∨ g u.id = true) (s.resetPass g) IdxState.init := by
+    obtain ⟨h0, h1, h2⟩ := IdxState.resetPass_clean g s
+    refine ⟨h0, fun u hu => ?_⟩
+    have : IdxState.init.get u = 0 := rfl
+    rw [this]
+    rcases hu with hu | hu
+    · exact h1 u hu
+    · exact h2 u hu
+  have hC : ∀ ob ∈ obs, ∀ out, ob.kind.lin fuel (σ.view ob) = .ok out → ∀ e ∈ out.evs,
+      (fun u : Unk => u.c = .ori ∨ g u.id = true) (evTarget ob.name e) := by
+    intro ob hob out ho e he
+    have hfr := (shape_of_regular ob.kind fuel _ out (hreg ob hob) ho).free e he
+    rw [evTarget_eq]
+    generalize evRC e = rc at hfr
+    obtain ⟨r, c⟩ := rc
+    cases r <;> cases c <;> simp [freeAt, Obs.pt, Net.view, NObs.name] at hfr ⊢ <;>
+      first
+      | exact (resetGuard_of_free _).1 hfr
+      | exact (resetGuard_of_free _).2 hfr
+  obtain ⟨b, hb, r1, r2, r3⟩ := passFrom_agree _ σ fuel obs _ _ a hag hC hp
+  refine ⟨b, hb, r1, r2, r3.1, fun u hu => r3.2 u ?_⟩
+  obtain ⟨id, c⟩ := u
+  cases c
+  · right; exact (resetGuard_of_free _).1 hu
+  · right; exact (resetGuard_of_free _).1 hu
+  · right; exact (resetGuard_of_free _).2 hu
+  · left; rfl
+
 end Gama.Lin
